@@ -13,9 +13,10 @@ import (
 func init() { Registry["C04"] = checkC04 }
 
 type strAn struct {
-	c      *Ctx
-	normFn map[string]bool
-	memoN  map[ssa.Value]int // 1 true 2 false 3 in progress
+	substStack []map[*ssa.Parameter]ssa.Value
+	c          *Ctx
+	normFn     map[string]bool
+	memoN      map[ssa.Value]int // 1 true 2 false 3 in progress
 	// parameters known non-empty in the current interprocedural context (actual argument
 	// proved non-empty at the call site)
 	prmNE map[*ssa.Parameter]bool
@@ -57,6 +58,18 @@ func (a *strAn) caseNormalised(v ssa.Value, depth int) (bool, string) {
 	case *ssa.Const:
 		return true, ""
 	case *ssa.Parameter:
+		// inside a callee that is being judged for one particular call: the parameter stands for
+		// the argument of that call (every parameter that reaches the result is followed, not
+		// only the first one met)
+		if n := len(a.substStack); n > 0 {
+			if arg, has := a.substStack[n-1][x]; has {
+				top := a.substStack[n-1]
+				a.substStack = a.substStack[:n-1]
+				ok, why := a.caseNormalised(arg, depth+1)
+				a.substStack = append(a.substStack, top)
+				return ok, why
+			}
+		}
 		return false, "parameter " + x.Name() + " of " + shortFn(x.Parent()) + " reaches the result without a case normaliser"
 	case *ssa.Call:
 		name := eng.CalleeName(x.Common())
@@ -124,6 +137,16 @@ func (a *strAn) caseNormalised(v ssa.Value, depth int) (bool, string) {
 // resultNormalised: result #idx of g is case-normalised at every success return, treating
 // g's parameters as raw unless the actual argument at the call is itself normalised.
 func (a *strAn) resultNormalised(g *ssa.Function, idx int, call *ssa.Call, depth int) (bool, string) {
+	if call != nil {
+		sub := map[*ssa.Parameter]ssa.Value{}
+		for i, prm := range g.Params {
+			if i < len(call.Call.Args) {
+				sub[prm] = call.Call.Args[i]
+			}
+		}
+		a.substStack = append(a.substStack, sub)
+		defer func() { a.substStack = a.substStack[:len(a.substStack)-1] }()
+	}
 	for _, ret := range successReturns(g) {
 		res := eng.ReturnResults(ret)
 		if idx >= len(res) {
